@@ -72,8 +72,7 @@ def judge_call(case, impl, model):
         elif s['keywordCall'] and C.twin_accepts(impl) and out != 'PED:TypeCheck' and not (out == 'BODY_EXC' and not s['incompleteParam']):
             pfail = f'{impl["out"]} instead of PedanticTypeCheckException - {C.describe_case(case)}'
     finding = None
-    if pfail and corr and ('untruthful' in model['regions'] or 'clazzFails' in model['regions']):
-        finding = 'bodyMentionsStaticmethodIncomplete'
+    # (former region bodyMentionsStaticmethodIncomplete: repaired by e6a11f4)
     return {'corr': corr, 'pfail': pfail, 'finding': finding, 'nontrivial': bool(inc),
             'tag': f"call/{case['x']['kind']}/inc={int(s['incompleteParam'])}{int(s['incompleteReturn'])}/{out}", 'why': why}
 
